@@ -871,7 +871,7 @@ pub fn t_vft(a: &[i64]) -> Val {
 // fields whose type is chosen per field (C10, C09, C02).
 // a = [ps, k, order, per type i (stride 7): in_n, nf, (kind, target) x 2, align]
 // field kind: 0 u32, 1 T_j by value, 2 *const T_j, 3 [T_j; 2], 4 #[base] T_j, 5 undefined name, 6 u64, 7 enum E (u32), 8 [T_j; 0]
-// order: definitions of module m are emitted rotated by `order`.
+// order: definitions of module m are emitted rotated by `order`; order >= 4: the modules import each other's types by path, not the module.
 const TYPE_NAMES: [&str; 5] = ["T0", "T1", "T2", "T3", "T4"];
 const GF_NAMES: [&str; 2] = ["p", "q"];
 pub fn t_graph(a: &[i64]) -> Val {
@@ -937,8 +937,18 @@ pub fn t_graph(a: &[i64]) -> Val {
         (V::Public, "T0x"),
         TD::new([TS::field((V::Public, "s"), T::ident(if ps == 8 { "u64" } else { "u32" }))]),
     ));
-    let mm = M::new().with_uses([IP::from("n"), IP::from("n::T0x")]).with_definitions(rotated);
-    let mn = M::new().with_uses([IP::from("m")]).with_definitions(defs_n);
+    // order >= 4: the two modules import each other's *types* by full path instead of importing the module
+    let type_imports = order >= 4;
+    let (uses_m, uses_n): (Vec<IP>, Vec<IP>) = if type_imports {
+        (
+            vec![IP::from("n::T1"), IP::from("n::T3"), IP::from("n::T0x")],
+            vec![IP::from("m::T0"), IP::from("m::T2"), IP::from("m::T4"), IP::from("m::E")],
+        )
+    } else {
+        (vec![IP::from("n"), IP::from("n::T0x")], vec![IP::from("m")])
+    };
+    let mm = M::new().with_uses(uses_m).with_definitions(rotated);
+    let mn = M::new().with_uses(uses_n).with_definitions(defs_n);
     let mut st = SemanticState::new(ps);
     // module addition order is part of `order` as well
     let first_n = order % 2 == 1;
